@@ -24,6 +24,7 @@ private theorem nf_geocentric2cart (r lat lon : ℝ) :
          r * Real.cos (lat * (Real.pi / 180)) * Real.sin (lon * (Real.pi / 180)),
          r * Real.sin (lat * (Real.pi / 180))) := by
   simp only [geocentric2cart]
+  <;> ring_nf
 
 private theorem nf_cart2geocentric (x y z : ℝ) :
     cart2geocentric x y z
@@ -31,10 +32,12 @@ private theorem nf_cart2geocentric (x y z : ℝ) :
          Real.arcsin (z / Real.sqrt (x ^ 2 + y ^ 2 + z ^ 2)) * (180 / Real.pi),
          Complex.arg ⟨x, y⟩ * (180 / Real.pi)) := by
   simp only [cart2geocentric]
+  <;> ring_nf
 
 private theorem nf_rejects (x y z : ℝ) :
     cart2geocentric_rejects x y z ↔ Real.sqrt (x ^ 2 + y ^ 2 + z ^ 2) = 0 := by
   simp only [cart2geocentric_rejects]
+  <;> ring_nf
 
 private theorem nf_geodetic2cart (h lat lon a e : ℝ) :
     geodetic2cart h lat lon a e
@@ -45,6 +48,7 @@ private theorem nf_geodetic2cart (h lat lon a e : ℝ) :
          (a / Real.sqrt (1 - e ^ 2 * Real.sin (lat * (Real.pi / 180)) ^ 2) * (1 - e ^ 2) + h)
             * Real.sin (lat * (Real.pi / 180))) := by
   simp only [geodetic2cart, sind, cosd, mul_one]
+  <;> ring_nf
 
 private theorem nf_body (x y z a e e2 N h Bp B : ℝ) :
     cart2geodetic_loop1_body x y z a e e2 (N, h, Bp, B)
@@ -56,6 +60,7 @@ private theorem nf_body (x y z a e e2 N h Bp B : ℝ) :
               (a / Real.sqrt (1 - e2 * Real.sin B ^ 2) +
                 (Real.sqrt (x * x + y * y) / Real.cos B - a / Real.sqrt (1 - e2 * Real.sin B ^ 2))))))) := by
   simp only [cart2geodetic_loop1_body, pow_one]
+  <;> ring_nf
 
 private theorem nf_r_geodetic (a e lat : ℝ) :
     ellipsoid_r_geodetic a e lat
@@ -64,6 +69,7 @@ private theorem nf_r_geodetic (a e lat : ℝ) :
                 + Real.cos (lat * (Real.pi / 180)) ^ 2)
             / Real.sqrt (1 - e ^ 2 * Real.sin (lat * (Real.pi / 180)) ^ 2) := by
   simp only [ellipsoid_r_geodetic, sind, cosd, one_mul]
+  <;> ring_nf
 
 private theorem nf_r_geocentric (a e lat : ℝ) :
     ellipsoid_r_geocentric a e lat
@@ -72,6 +78,7 @@ private theorem nf_r_geocentric (a e lat : ℝ) :
             / Real.sqrt ((1 - e ^ 2) * Real.cos (lat * (Real.pi / 180)) ^ 2
                 + Real.sin (lat * (Real.pi / 180)) ^ 2) := by
   simp only [ellipsoid_r_geocentric, sind, cosd, one_mul]
+  <;> ring_nf
 
 theorem conv_table :
     (0 < ellipsoidmodels_SphericalEarth.1 ∧ 0 ≤ ellipsoidmodels_SphericalEarth.2 ∧ ellipsoidmodels_SphericalEarth.2 < 1) ∧
@@ -586,6 +593,7 @@ theorem conv_geodetic_is_fixed_point_den (h lat lon a e N0 h0 B0 : ℝ) (ha : 0 
 private theorem nf_cond (x y z a e e2 : ℝ) (s : ℝ × ℝ × ℝ × ℝ) :
     cart2geodetic_loop1_cond_any x y z a e e2 s ↔ |s.2.2.1 - s.2.2.2| > 1 / 1000000000000 := by
   simp only [cart2geodetic_loop1_cond_any]
+  <;> ring_nf
 
 /-- the loop is always entered -/
 theorem conv_loop_entered (x y z a e B0 : ℝ) : cart2geodetic_loop1_entered x y z a e (e ^ 2) (B0 + 1) B0 := by
